@@ -80,8 +80,13 @@ def stage_b(ctx, procs):
     names, items = c11.enum_run(ctx, 'checks', ctx.pick(53, 2), procs, tag='b', fs=4)
     idx = [i for i, n in enumerate(names) if n]           # the empty name: see stage C
     bad, nrej, nyes = [], 0, 0
+    fam = {'towers': 0, 'stacked': 0, 'wide': 0}
     for it in items:
         rules = to_json(it[2])
+        ids = {r['id'] for r in rules}
+        fam['towers'] += '#top' in ids
+        fam['stacked'] += '#d' in ids and '#r2' in ids
+        fam['wide'] += '#w7' in ids
         yes = {(a - 1, b - 1) for a, b in it[4]}
         text = K.render(rules)
         oc, ck, msg, note = K.build2(text)
@@ -113,6 +118,10 @@ def stage_b(ctx, procs):
         ctx.sample({'kind': 'B-schema', 'text': text, 'pairs': len(idx) ** 2, 'yes': len(yes)}, limit=2)
     ctx.note('B: %d family schemas x %d pairs executed on Checker.check (direct + reloaded; %d rejected schemas skipped); '
              '%d yes-answers expected; %d schemas differ' % (len(items) - nrej, len(idx) ** 2, nrej, nyes, len(bad)))
+    ctx.note('B: among them %(towers)d reference towers (a rule reached twice through nested references), %(stacked)d with '
+             'two constraints on one pattern (mixed alternatives), %(wide)d wide schemas (7-13 rules, 9-17 named patterns)' % fam)
+    if not all(fam.values()):
+        raise tlc.MachineryError('B: a family of LvsEnum is missing from the sample: %s' % fam)
     if bad:
         recs = []
         for k, rules, text, ck in bad:
@@ -141,11 +150,14 @@ def report(ctx, recs, ver):
             ctx.violation('C12/Checker.check/%s' % cls, what_c(rec, cls, cnt, first), obj)
 
 
-def make_pairs(ctx, ck, rules, text, L, nsample, Lall, tag, reuse=False):
+def make_pairs(ctx, ck, rules, text, L, nsample, Lall, tag, reuse=False, nlong=0, stat=None):
     """names (with digest variants) and the pairs to ask. Returns (names, pairs [[pi, ki, res]])."""
     rng = ctx.rng
     alpha = K.alphabet(rules, rng)
     base = K.names_upto(alpha, L)
+    # expanded names longer than L (references nested several levels deep): names chosen along the chains of the schema
+    longn = K.chain_names(rules, alpha, rng, L, limit=nlong) if nlong else []
+    base = base + longn
     # third block: the same names with a trailing ParametersSha256Digest component, which is NOT ignored (seed round 7)
     names = list(base) + [n + [K.DIGEST] for n in base] + [n + [K.PDIGEST] for n in base]
     nb = len(base)
@@ -159,7 +171,8 @@ def make_pairs(ctx, ck, rules, text, L, nsample, Lall, tag, reuse=False):
             ask.add((a, b))
     allidx = list(range(nb))
     # every pair of names that each match some rule (the pairs that can be answered yes), when there are few
-    pool = hit if len(hit) <= 45 else rng.sample(hit, 45)
+    npool = ctx.pick(40, 45)
+    pool = hit if len(hit) <= npool else rng.sample(hit, npool)
     for a in pool:
         for b in pool:
             ask.add((a, b))
@@ -171,6 +184,16 @@ def make_pairs(ctx, ck, rules, text, L, nsample, Lall, tag, reuse=False):
     for a in first + (rest if len(rest) <= 20 - len(first) else rng.sample(rest, 20 - len(first))):
         for b in allidx:
             ask.add((a, b))
+    # the long names, as packet and as key, against each other and against names that match some rule
+    longidx = list(range(nb - len(longn), nb))
+    partners = set(hit if len(hit) <= 10 else rng.sample(hit, 10)) | set(longidx)
+    for a in longidx:
+        for b in sorted(partners):
+            ask.add((a, b))
+            ask.add((b, a))
+    if stat is not None:
+        stat['long'] += len(longn)
+        stat['longhit'] += sum(1 for i in longidx if nres.get(i))
     for _ in range(nsample):
         a = rng.choice(hit) if hit and rng.random() < 0.85 else rng.choice(allidx)
         b = rng.choice(hit) if hit and rng.random() < 0.7 else rng.choice(allidx)
@@ -221,10 +244,14 @@ def stage_c(ctx, procs):
     Lall = 2
     nsample = ctx.pick(300, 5000)
     gen = K.Gen(ctx.rng, signing=0.85, p_forward=0.2, p_redef=0.3, p_twin=0.6, force_twin=0.6, carried=0.5, dual=0.6,
-                foreign=0.25, flat=0.6)
+                foreign=0.25, flat=0.6, stack=0.4, tower=0.35)
+    nlong = ctx.pick(12, 60)
+    stat = {'long': 0, 'longhit': 0}
     recs, rejected, sid, nyes = [], 0, 0, 0
     while len(recs) < n and sid < 4 * n:
         sid += 1
+        if sid % ctx.pick(12, 8) == 5:
+            gen.force = {'wide'}           # scale: every 12th (8th) schema has 10 and more named patterns
         rules = gen.schema()
         if not any(r['sign'] for r in rules):
             continue
@@ -240,7 +267,7 @@ def stage_c(ctx, procs):
         # all pairs of short names; in the thorough tier every 10th schema gets all pairs one length further
         alpha, names, pairs = make_pairs(ctx, ck, rules, text, L, nsample,
                                          Lall + (1 if not ctx.quick and len(recs) % 10 == 0 else 0), sid,
-                                         reuse=len(recs) % 3 == 1)
+                                         reuse=len(recs) % 3 == 1, nlong=nlong, stat=stat)
         nyes += sum(1 for p in pairs if p[2])
         recs.append({'sid': sid, 'kind': 'c', 'rules': rules, 'model': K.dump_model(ck.model), 'names': names,
                      'pairs': pairs, 'text': text, 'alpha': alpha, 'reuse': len(recs) % 3 == 1})
@@ -250,8 +277,12 @@ def stage_c(ctx, procs):
     ctx.note('C: generator shapes: %d schemas where a definition with signers of its own is written like ONE chain of a '
              'rule that has several (the chains end on one node, the signer lists stay apart), %d with a constraint '
              'inherited onto a pattern of the referring rule' % (gen.stat['flat'], gen.stat['foreign']))
-    if len(recs) >= 30 and not gen.stat['flat']:
-        raise tlc.MachineryError('C: generator dimension vacuous: %s' % gen.stat)
+    ctx.note('C: %d schemas where one pattern of an expanded name carries several constraints with mixed alternatives, %d with '
+             'references nested 3-4 deep that reach one rule twice; %d names longer than %d components chosen along the '
+             'chains (%d of them match a rule); %d schemas with 10 and more named patterns'
+             % (gen.stat['stack'], gen.stat['tower'], stat['long'], L, stat['longhit'], gen.stat['wide']))
+    if len(recs) >= 30 and not (gen.stat['flat'] and gen.stat['stack'] and gen.stat['tower'] and stat['longhit'] and gen.stat['wide']):
+        raise tlc.MachineryError('C: generator dimension vacuous: %s %s' % (gen.stat, stat))
     ver = K.judge(ctx, [strip12(r) for r in recs], 'c12c', procs)
     report(ctx, recs, ver)
 
